@@ -11,6 +11,8 @@ import (
 	"time"
 
 	"github.com/kelindar/rate"
+
+	"github.com/cnotch/ipchub/utils/vhook"
 )
 
 const (
@@ -74,6 +76,7 @@ func (m *Conn) Flush() (n int, err error) {
 
 	// Flush everything and reset the buffer
 	n, err = m.writeFull(m.writer.Bytes())
+	vhook.At("flush.written", m)
 	m.writer.Reset()
 	return
 }
